@@ -421,7 +421,7 @@ def run(ctx):
                         check_persist(ctx, kind, card, fmt, sdir)
         if ctx.shard == 0:
             check_parsers(ctx)
-        nh = ctx.pick(1500, 30000)
+        nh = ctx.pick(1500, 300000)
         for j in range(nh):
             if not ctx.mine(j):
                 continue
